@@ -17,6 +17,7 @@ func init() {
 		{Name: "readpacket-wrap-s", Rule: "R8.2", Where: "ReadPacket", Edits: []Edit{{"packet.go", "\"ReadPacket: %w\"", "\"ReadPacket: %s\""}}},
 		{Name: "unexpected-eof-swallowed", Rule: "R8.1", Where: "ReadRemaining", Edits: []Edit{{"packet.go", "if _, err := io.ReadFull(r, data); err != nil {", "if _, err := io.ReadFull(r, data); err != nil && err != io.ErrUnexpectedEOF {"}}},
 		{Name: "packet-with-error", Rule: "R8.3", Where: "ReadRemaining", Edits: []Edit{{"packet.go", "return nil, fmt.Errorf(\n\t\t\t\"%s ReadRemaining: %w\",", "return p, fmt.Errorf(\n\t\t\t\"%s ReadRemaining: %w\","}}},
+		{Name: "packet-returned-at-a-join-with-the-error", Rule: "R8.3", Where: "ReadRemaining", Edits: []Edit{{"packet.go", "\tif _, err := io.ReadFull(r, data); err != nil {\n\t\treturn nil, fmt.Errorf(\n\t\t\t\"%s ReadRemaining: %w\",\n\t\t\tfirstByte(f.fixed).String(), err,\n\t\t)\n\t}\n\n\tif err := p.UnmarshalBinary(data); err != nil {\n\t\treturn nil, fmt.Errorf(\n\t\t\t\"%s %v UnmarshalBinary: %w\",\n\t\t\tfirstByte(f.fixed).String(), f.remainingLen, err,\n\t\t)\n\t}\n\treturn p, nil", "\t_, err := io.ReadFull(r, data)\n\tif err == nil {\n\t\tif err := p.UnmarshalBinary(data); err != nil {\n\t\t\treturn nil, fmt.Errorf(\n\t\t\t\t\"%s %v UnmarshalBinary: %w\",\n\t\t\t\tfirstByte(f.fixed).String(), f.remainingLen, err,\n\t\t\t)\n\t\t}\n\t}\n\treturn p, err"}}},
 		{Name: "header-error-dropped", Rule: "R8.1", Where: "(*fixedHeader).ReadFrom", Edits: []Edit{{"packet.go", "\tm, err := f.remainingLen.ReadFrom(r)\n\treturn n + m, err", "\tm, _ := f.remainingLen.ReadFrom(r)\n\treturn n + m, nil"}}},
 		{Name: "new-error-replaces", Rule: "R8.2", Where: "(*vbint).ReadFrom", Edits: []Edit{{"wiretypes.go", "if _, err := io.ReadFull(r, data); err != nil {\n\t\t\treturn i, err", "if _, err := io.ReadFull(r, data); err != nil {\n\t\t\treturn i, fmt.Errorf(\"short header\")"}}},
 		{Name: "separate-wrap-statement", Silent: true, Edits: []Edit{{"packet.go", "\tif _, err := fh.ReadFrom(r); err != nil {\n\t\treturn nil, fmt.Errorf(\"ReadPacket: %w\", err)\n\t}", "\tif _, err := fh.ReadFrom(r); err != nil {\n\t\twrapped := fmt.Errorf(\"ReadPacket: %w\", err)\n\t\treturn nil, wrapped\n\t}"}}},
@@ -204,16 +205,39 @@ func checkC08(p *Prog, c *Check) {
 			switch {
 			case wraps:
 				exports = true
-				if onErr {
+				if !onNil {
+					// this exit can be taken with the read error set (it lies on the error edge, or at a join that the
+					// error edge reaches): every other pointer-like result must be nil whenever it is
 					for j, r := range ret.Results {
 						if j == k {
 							continue
 						}
 						switch r.Type().Underlying().(type) {
 						case *types.Pointer, *types.Interface, *types.Slice, *types.Map:
-							if !isNilConst(r) {
+							okR := isNilConst(r)
+							if ex, isEx := r.(*ssa.Extract); isEx && !okR {
+								if sv, isV := s.site.(ssa.Value); isV && ex.Tuple == sv {
+									okR = true // the mq callee's own results forwarded together: the callee's exits are checked where it is defined
+								}
+							}
+							if ph, isPhi := r.(*ssa.Phi); isPhi && !okR && !onErr && ph.Block() == b {
+								okR = true
+								for i, pb := range b.Preds {
+									if dominatedByAny(isNil, pb) {
+										continue // arrives from the success side
+									}
+									if !isNilConst(ph.Edges[i]) {
+										okR = false
+									}
+								}
+							}
+							if !okR {
 								okAll = false
-								c.Bad("R8.3", cons, rpos, fmt.Sprintf("result %d is returned non-nil together with the read error", j))
+								how := "together with the read error"
+								if !onErr {
+									how = "at an exit that the failed read also reaches (the error is returned, the packet is not cleared)"
+								}
+								c.Bad("R8.3", cons, rpos, fmt.Sprintf("result %d is returned non-nil %s", j, how))
 							}
 						}
 					}
